@@ -60,11 +60,24 @@ pub fn child_main(args: &[String]) -> i32 {
             return 0;
         }
     };
+    // the error value is also taken through the crate's own `From<..> for ConvertError` (what `?` does in a caller
+    // returning the crate's umbrella error) and formatted: an error value that panics when it is looked at or
+    // propagated is not "an error value and no panic"
+    fn use_svg_err(e: fast_qr::convert::svg::SvgError) -> String {
+        let d = format!("{:?}", e);
+        let c: fast_qr::convert::ConvertError = e.into();
+        format!("{} -> {:?}", d, c)
+    }
+    fn use_png_err(e: fast_qr::convert::image::ImageError) -> String {
+        let d = format!("{:?} / {}", e, e);
+        let c: fast_qr::convert::ConvertError = e.into();
+        format!("{} -> {:?}", d, c)
+    }
     let r = subject::guarded(|| match kind {
-        "svg" => svg_builder().to_file(&q, &path).map_err(|e| format!("{:?}", e)),
-        "svgd" => SvgBuilder::default().to_file(&q, &path).map_err(|e| format!("{:?}", e)),
-        "pngd" => ImageBuilder::default().to_file(&q, &path).map_err(|e| format!("{:?}", e)),
-        _ => png_builder().to_file(&q, &path).map_err(|e| format!("{:?}", e)),
+        "svg" => svg_builder().to_file(&q, &path).map_err(use_svg_err),
+        "svgd" => SvgBuilder::default().to_file(&q, &path).map_err(use_svg_err),
+        "pngd" => ImageBuilder::default().to_file(&q, &path).map_err(use_png_err),
+        _ => png_builder().to_file(&q, &path).map_err(use_png_err),
     });
     match r {
         Ok(Ok(())) => println!("RESULT ok"),
